@@ -1128,8 +1128,10 @@ impl TryFrom<&mut Peekable<Lexer>> for ParserNode {
                                 let Ok(next) = lex.peek_any() else {
                                     break;
                                 };
-                                if let TokenType::Newline = next.token_type() {
+                                if let TokenType::Newline | TokenType::Comment(_) = next.token_type() {
                                     // consume newline
+                                    // (a comment is no more than the line break behind it: a list
+                                    // that goes on in the next line does so with a comment as well)
                                     lex.get_any()?;
                                 } else if let Ok(imm) = next.as_imm() {
                                     // try to get immediate
